@@ -824,6 +824,11 @@ def tobv(v):
 
 def tobv_checked(v: SInt) -> "SBV":
     """mathematical int -> bit-vector; exact only if the value fits: side obligation"""
+    t = v.t
+    if z3.is_app(t) and t.decl().kind() == z3.Z3_OP_BV2INT and t.arg(0).size() < BVW - 2:
+        # unsigned view of a narrower vector: widen it (no Int<->BV round trip in the formula)
+        a = t.arg(0)
+        return SBV(z3.ZeroExt(BVW - a.size(), a), a.size())
     c = cur()
     lim = z3.IntVal(1 << (BVW - 2))
     if not c.valid(z3.And(v.t >= -lim, v.t < lim)):
